@@ -12,6 +12,21 @@ def main():
     import vf
     vf.use_repo()
     from vf.core import Ctx, Inconclusive, CaseTimeout, unjson
+    cover = None
+    if os.environ.get("VF_COVER"):
+        # line coverage of the repository's code under this shard (tools/cover.py): every line reports
+        # once and is then switched off, so the cost is negligible and verdicts are unaffected
+        cover = set()
+        prefix = os.path.join(vf.REPO, "ak") + os.sep
+        mon = sys.monitoring
+
+        def _line(code, line):
+            if code.co_filename.startswith(prefix):
+                cover.add((code.co_filename[len(prefix):], line))
+            return mon.DISABLE
+        mon.use_tool_id(1, "vf-cover")
+        mon.register_callback(1, mon.events.LINE, _line)
+        mon.set_events(1, mon.events.LINE)
     mod = importlib.import_module(f"vf.checks.{spec['prop'].lower()}")
     ctx = Ctx(spec["prop"], spec["tier"], spec["seed"], spec["shard"],
               spec["n_shards"], spec["cases"], spec.get("params"))
@@ -36,6 +51,9 @@ def main():
     except BaseException:  # harness failure: never a verdict
         res = ctx.result()
         res["harness_error"] = traceback.format_exc()[-3000:]
+    if cover is not None:
+        sys.monitoring.set_events(1, 0)
+        res["cover"] = sorted(cover)
     tmp = out_path + ".tmp"
     with open(tmp, "w") as f:
         json.dump(res, f)
